@@ -10,7 +10,7 @@ for p in props:
     pid = p['id']
     path = os.path.join(ROOT, 'checks', pid + '.py')
     mod = importlib.import_module('checks.' + pid) if os.path.exists(path) else None
-    if mod is None or not getattr(mod, 'CLAIMED', True):
+    if mod is None or not getattr(mod, 'CLAIMED', hasattr(mod, 'LEVEL_TEXT')):
         na.append({'property_id': pid, 'reason': getattr(mod, 'NA_REASON', NA_DEFAULT) if mod else NA_DEFAULT})
         continue
     served.append(pid)
